@@ -749,7 +749,7 @@ namespace Clipper2Lib {
       max_d = d;
       idx = i;
     }
-    if (max_d <= epsSqrd) return;
+    if (!(max_d > epsSqrd)) return; // also ends the recursion when epsSqrd is NaN
     flags[idx] = true;
     if (idx > begin + 1) RDP(path, begin, idx, epsSqrd, flags);
     if (idx < end - 1) RDP(path, idx, end, epsSqrd, flags);
